@@ -230,7 +230,172 @@ fn minimise_path(p: &str, m: usize, sig: &str) -> (String, Finding) {
     (path, f)
 }
 
+
+// ------------------------------------------------------------------ histories (explicit-state)
+//
+// "Two URIs for the same path identify the same analysed file" must also hold after the file was
+// removed, re-added or cleared through any of its spellings: every history of ≤ d operations over
+// three spellings of one path and one spelling of a second path is replayed on a fresh Vfs, and after
+// every step all spellings of a path must name the same file (same id or all absent) whose content
+// is the last text submitted for that path through any spelling.
+
+/// (spelling index, path index): three spellings of path 0, one of path 1
+fn history_uris() -> Vec<(Uri, usize)> {
+    let p0 = PathBuf::from("/a b/é.lua");
+    let p1 = PathBuf::from("/a b/c.lua");
+    let u0 = file_path_to_uri(&p0).unwrap_or_else(|| die("C34: no uri for the history path"));
+    let u1 = file_path_to_uri(&p1).unwrap_or_else(|| die("C34: no uri for the second history path"));
+    let mut v = vec![(u0.clone(), 0usize)];
+    // one spelling that encodes a literal character, one that switches the hex case of an escape
+    let alts: Vec<String> = alternatives(u0.as_str(), 1);
+    let encoded_literal = alts.iter().find(|a| a.len() > u0.as_str().len());
+    let case_switched = alts.iter().find(|a| a.len() == u0.as_str().len() && a.as_str() != u0.as_str());
+    for a in [encoded_literal, case_switched].into_iter().flatten() {
+        if let Ok(au) = Uri::from_str(a) {
+            v.push((au, 0));
+        }
+    }
+    if v.len() != 3 {
+        die("C34: the history path does not have the two alternative spellings");
+    }
+    v.push((u1, 1));
+    v
+}
+
+#[derive(Clone, Copy, Debug, PartialEq)]
+enum HOp {
+    Set(usize, usize),
+    Clear(usize),
+    Remove(usize),
+    Id(usize),
+}
+
+fn hop_json(o: &HOp, uris: &[(Uri, usize)]) -> Value {
+    match o {
+        HOp::Set(u, t) => json!({"op": "set_file_content", "uri": uris[*u].0.as_str(), "text": format!("t{t}")}),
+        HOp::Clear(u) => json!({"op": "set_file_content(None)", "uri": uris[*u].0.as_str()}),
+        HOp::Remove(u) => json!({"op": "remove_file", "uri": uris[*u].0.as_str()}),
+        HOp::Id(u) => json!({"op": "file_id", "uri": uris[*u].0.as_str()}),
+    }
+}
+
+fn hop_from_json(v: &Value, uris: &[(Uri, usize)]) -> Option<HOp> {
+    let u = uris.iter().position(|(x, _)| Some(x.as_str()) == v["uri"].as_str())?;
+    Some(match v["op"].as_str()? {
+        "set_file_content" => HOp::Set(u, v["text"].as_str()?.trim_start_matches('t').parse().ok()?),
+        "set_file_content(None)" => HOp::Clear(u),
+        "remove_file" => HOp::Remove(u),
+        _ => HOp::Id(u),
+    })
+}
+
+const HTEXTS: [&str; 2] = ["return 0\n", "return 1\n"];
+
+/// replay a history on a fresh Vfs; first defect as (signature, detail)
+fn check_history(h: &[HOp], uris: &[(Uri, usize)]) -> Option<(String, String)> {
+    let r = catch(|| {
+        let mut vfs = Vfs::new();
+        vfs.update_config(std::sync::Arc::new(emmylua_code_analysis::Emmyrc::default()));
+        // model: per path, the text last submitted (None = cleared / removed / never set)
+        let mut model: [Option<usize>; 2] = [None, None];
+        for (step, o) in h.iter().enumerate() {
+            match o {
+                HOp::Set(u, t) => {
+                    vfs.set_file_content(&uris[*u].0, Some(HTEXTS[*t].to_string()));
+                    model[uris[*u].1] = Some(*t);
+                }
+                HOp::Clear(u) => {
+                    vfs.set_file_content(&uris[*u].0, None);
+                    model[uris[*u].1] = None;
+                }
+                HOp::Remove(u) => {
+                    vfs.remove_file(&uris[*u].0);
+                    model[uris[*u].1] = None;
+                }
+                HOp::Id(u) => {
+                    vfs.file_id(&uris[*u].0);
+                }
+            }
+            for p in 0..2 {
+                let ids: Vec<(usize, Option<u32>)> = uris.iter().enumerate().filter(|(_, (_, q))| *q == p).map(|(i, (u, _))| (i, vfs.get_file_id(u).map(|f| f.id))).collect();
+                if let Some((i, id)) = ids.iter().find(|(_, id)| *id != ids[0].1) {
+                    return Some(("history:spellings-name-different-files".to_string(), format!("after step {step}: {} is file {:?} but {} is file {:?}", uris[ids[0].0].0.as_str(), ids[0].1, uris[*i].0.as_str(), id)));
+                }
+                let content = ids[0].1.and_then(|id| vfs.get_file_content(&emmylua_code_analysis::FileId { id }).cloned());
+                let want = model[p].map(|t| HTEXTS[t].to_string());
+                if content != want {
+                    return Some(("history:content-not-last-submitted".to_string(), format!("after step {step}: path {p} holds {content:?}, the last text submitted through any spelling is {want:?}")));
+                }
+            }
+        }
+        None
+    });
+    match r {
+        Ok(x) => x,
+        Err(e) => Some((format!("panic:{}", panic_site(&e)), e)),
+    }
+}
+
+fn history_alphabet(uris: &[(Uri, usize)]) -> Vec<HOp> {
+    let mut v = Vec::new();
+    for u in 0..uris.len() {
+        v.push(HOp::Set(u, 0));
+    }
+    for u in 0..uris.len() {
+        v.push(HOp::Remove(u));
+        v.push(HOp::Id(u));
+        v.push(HOp::Clear(u));
+    }
+    // a second text through the first and the last spelling of path 0
+    v.push(HOp::Set(0, 1));
+    v.push(HOp::Set(2.min(uris.len() - 2), 1));
+    v
+}
+
+fn run_histories(args: &Args, dl: &Deadline, depth: usize, all: &mut Stats) -> Value {
+    let uris = history_uris();
+    let alpha = history_alphabet(&uris);
+    // one witness per signature: the least minimised history (length, then alphabet order)
+    let best: std::sync::Mutex<std::collections::BTreeMap<String, (Vec<usize>, Vec<HOp>)>> = Default::default();
+    let rank = |h: &[HOp]| -> Vec<usize> { std::iter::once(h.len()).chain(h.iter().map(|o| alpha.iter().position(|a| a == o).unwrap_or(usize::MAX))).collect() };
+    let (mut st, done) = par_words(alpha.len(), 1, depth, args.threads, dl, |w, st| {
+        let h: Vec<HOp> = w.iter().map(|&i| alpha[i]).collect();
+        let r = check_history(&h, &uris);
+        st.eval(h.len() > 1);
+        match r {
+            None => st.outcome("history:ok"),
+            Some((sig, _)) => {
+                st.outcome(&format!("violation:{sig}"));
+                st.raw_violating_cases += 1;
+                let min = minimise_seq(&h, |c| !c.is_empty() && check_history(c, &uris).is_some_and(|(s2, _)| s2 == sig));
+                let rk = rank(&min);
+                let mut b = best.lock().unwrap();
+                if b.get(&sig).is_none_or(|(r0, _)| rk < *r0) {
+                    b.insert(sig, (rk, min));
+                }
+            }
+        }
+        if w.len() == 3 && w[0] == 1 && w[1] == 5 && w[2] == 0 {
+            st.sample(|| json!({"history": h.iter().map(|o| hop_json(o, &uris)).collect::<Vec<_>>()}));
+        }
+    });
+    for (sig, (_, min)) in best.into_inner().unwrap() {
+        let d = check_history(&min, &uris).map(|x| x.1).unwrap_or_default();
+        st.violation(Violation { signature: sig, witness: json!({"history": min.iter().map(|o| hop_json(o, &uris)).collect::<Vec<_>>()}), detail: d });
+    }
+    all.merge(st);
+    json!({"spellings": uris.iter().map(|(u, p)| json!({"uri": u.as_str(), "path": p})).collect::<Vec<_>>(), "operations": alpha.len(), "depth_target": depth, "depth_completed": done})
+}
+
 pub fn replay(w: &Value) -> Option<Violation> {
+    if let Some(h) = w.get("history").and_then(|h| h.as_array()) {
+        let uris = history_uris();
+        let ops: Vec<HOp> = h.iter().filter_map(|o| hop_from_json(o, &uris)).collect();
+        if ops.len() != h.len() {
+            die("C34 replay: the history names a URI or operation this engine does not have");
+        }
+        return check_history(&ops, &uris).map(|(s, d)| Violation { signature: s, witness: w.clone(), detail: d });
+    }
     let p = w["path"].as_str()?;
     let alt = w.get("alt_uri").and_then(|x| x.as_str());
     let mut c = Counts { evals: 0, alts_unparsable: 0 };
@@ -297,11 +462,15 @@ pub fn run(args: &Args) -> ! {
             break;
         }
     }
+    let hist = if exhaustive { run_histories(args, &dl, args.tier.pick(4, 5), &mut all) } else { json!(null) };
+    if hist["depth_completed"].as_u64() != hist["depth_target"].as_u64() {
+        exhaustive = false;
+    }
     rep.rule = format!(
-        "every absolute path of exactly s segments for each (s, edits) in {plan:?}, segment ∈ Σ_p^1..2 ({ns} segments, Σ_p = {SIGMA_P:?}); per path: file_path_to_uri, uri_to_file_path, and every re-encoding of the URI path by ≤ edits edits (encode one literal character in upper/lower hex, switch the hex case of one escape, decode one escape of an unreserved character) looked up in a Vfs that holds the canonical URI; one evaluation = one URI judged; non-trivial = path longer than 2 bytes; oracle: round trip is the identity and every accepted re-encoding has the same file id and decoded path"
+        "every absolute path of exactly s segments for each (s, edits) in {plan:?}, segment ∈ Σ_p^1..2 ({ns} segments, Σ_p = {SIGMA_P:?}); per path: file_path_to_uri, uri_to_file_path, and every re-encoding of the URI path by ≤ edits edits (encode one literal character in upper/lower hex, switch the hex case of one escape, decode one escape of an unreserved character) looked up in a Vfs that holds the canonical URI; one evaluation = one URI judged; non-trivial = path longer than 2 bytes; oracle: round trip is the identity and every accepted re-encoding has the same file id and decoded path. Histories: every sequence of ≤ d operations (set_file_content with two texts, set_file_content(None), remove_file, file_id) over three spellings of one path and one spelling of a second path on a fresh Vfs; after every step all spellings of a path name the same file id (or are all absent) and its content is the text last submitted through any spelling"
     );
     rep.exhaustive = exhaustive;
-    rep.bounds = json!({"plan": completed, "alternatives_rejected_by_Uri_parser": unparsable.load(std::sync::atomic::Ordering::Relaxed),
+    rep.bounds = json!({"plan": completed, "histories": hist, "alternatives_rejected_by_Uri_parser": unparsable.load(std::sync::atomic::Ordering::Relaxed),
         "wall_cap_s": args.wall_cap_s, "wall_cap_hit": dl.was_hit()});
     rep.assumptions = vec![
         "Linux path semantics only (the harness runs on Linux; Windows drive-letter handling is not exercised)".into(),
